@@ -101,6 +101,44 @@ def build_model_if_stale():
     return sh(os.path.join(VERIF, "tools", "build_model.sh") + " 2>&1 | tail -20", 1800, cwd=VERIF)
 
 
+def run_model_sharded(cases, outp, work, tmo):
+    """run the extracted model over the case file; large files are cut into contiguous shards
+    run in parallel (the driver is single-threaded), outputs concatenated in order"""
+    drv = os.path.join(VERIF, "bin", "driver")
+    size = os.path.getsize(cases)
+    nsh = 1 if size < (4 << 20) else min(16, max(2, size >> 22))
+    if nsh == 1:
+        return sh("ulimit -v 16000000; ulimit -s unlimited; %s %s %s" % (drv, cases, outp), tmo)
+    lines = open(cases).read().splitlines(True)
+    per = (len(lines) + nsh - 1) // nsh
+    procs, outs = [], []
+    for i in range(nsh):
+        part = os.path.join(work, "cases.%02d" % i)
+        po = os.path.join(work, "model.%02d" % i)
+        open(part, "w").writelines(lines[i * per:(i + 1) * per])
+        outs.append((part, po))
+        procs.append(subprocess.Popen("ulimit -v 16000000; ulimit -s unlimited; %s %s %s" % (drv, part, po),
+                                      shell=True, stdout=subprocess.PIPE, stderr=subprocess.STDOUT))
+    del lines
+    rc, msg = 0, ""
+    t_end = time.time() + tmo
+    for p in procs:
+        try:
+            o, _ = p.communicate(timeout=max(1, t_end - time.time()))
+        except subprocess.TimeoutExpired:
+            p.kill(); o = b"timeout"; rc = 124
+        if p.returncode not in (0, None) and rc == 0:
+            rc = p.returncode
+        msg += o.decode("utf-8", "replace")[-300:]
+    with open(outp, "w") as f:
+        for part, po in outs:
+            if os.path.exists(po):
+                f.write(open(po).read())
+                os.remove(po)
+            os.remove(part)
+    return rc, msg
+
+
 def compile_props(prop):
     """recompile Props/<prop>.v from scratch; returns (ok, theorems, assumptions, log)"""
     src = os.path.join(COQ, "Props", prop + ".v")
@@ -283,8 +321,7 @@ def main():
                 if f[1] != f[2]:
                     disagreements.append({"case": f[0][:4000], "impl": f[1][:4000], "model": f[2][:4000]})
         if os.path.exists(cases) and any(not l.startswith("#") for l in open(cases)):
-            rc, out = sh("ulimit -v 16000000; ulimit -s unlimited; %s %s %s" % (
-                os.path.join(VERIF, "bin", "driver"), cases, os.path.join(work, "model.txt")), tmo)
+            rc, out = run_model_sharded(cases, os.path.join(work, "model.txt"), work, tmo)
             if rc != 0:
                 broken.append(("model-run", "driver exited %d: %s" % (rc, out[-1000:])))
             else:
